@@ -228,6 +228,7 @@ type c18Read struct {
 	BoundIP obs.Hex    `json:"bound_ip"`
 	BoundPt int        `json:"bound_port"`
 	Frames  []c18Frame `json:"frames"`
+	NoBound bool       `json:"no_bound,omitempty"` // the connection is created without a bound address (nil): nothing to filter on
 }
 
 type c18Deliver struct {
@@ -308,6 +309,12 @@ var c18r = newChk("C18", "read-sequence",
 		skipThenDeliver, sawSkip := false, false
 		for _, f := range c.Frames {
 			b, d := f.build(bound, hasBound, c.BoundPt)
+			if c.NoBound && (f.Kind == 7 || f.Kind == 8) {
+				// no bound address at all: a frame for another port or address is as good as any
+				var src [4]byte
+				copy(src[:], f.SrcIP)
+				d = &c18Deliver{payload: f.Payload, src: src, sport: f.SrcPort}
+			}
 			if len(b) == 0 {
 				continue // an empty read means EOF to the connection; not part of the sequence
 			}
@@ -325,6 +332,9 @@ var c18r = newChk("C18", "read-sequence",
 		ba := &net.UDPAddr{Port: c.BoundPt}
 		if hasBound {
 			ba.IP = net.IP(bound[:])
+		}
+		if c.NoBound {
+			ba = nil
 		}
 		conn := nclient4.NewBroadcastUDPConn(raw, ba)
 		var kept []*net.UDPAddr
@@ -376,6 +386,8 @@ func genC18Read() *rapid.Generator[c18Read] {
 		c := c18Read{BoundPt: rapid.SampledFrom([]int{68, 68, 1068, 0, 65535}).Draw(t, "port")}
 		if rapid.Bool().Draw(t, "bound") {
 			c.BoundIP = rapid.SliceOfN(rapid.Byte(), 4, 4).Draw(t, "bip")
+		} else if rapid.IntRange(0, 3).Draw(t, "nobound") == 0 {
+			c.NoBound = true
 		}
 		n := rapid.IntRange(1, 30).Draw(t, "nframes")
 		for i := 0; i < n; i++ {
